@@ -12,7 +12,9 @@ from .. import canon, core, e1, refcodec
 from ..world import Choice, ClientRec, RandomSeam, make_sd, timings
 
 INF = 0xFFFFFF
-SRC = {"S1": ("192.0.2.41", 30490), "S2": ("192.0.2.42", 30490)}
+SRC = {"S1": ("192.0.2.41", 30490), "S2": ("192.0.2.42", 30490),
+       # sources that differ from another one in a single component: the port (S5 vs S1), the scope id (S3 vs S4)
+       "S3": ("fe80::41", 30490, 0, 2), "S4": ("fe80::41", 30490, 0, 3), "S5": ("192.0.2.41", 30491)}
 SRCNAME = {v: k for k, v in SRC.items()}
 
 
@@ -280,6 +282,10 @@ def configs(ctx):
         [("S1", "offX2+offY1", "r", mc)] + [("S2", n, e, mc) for n in ("offX2", "stopX") for e in ("n", "r")]
     out.append(("full-menu", dict(sid=sid, advs=base, menu=menu, controls=("L2", "L3", "connlost"),
                                   deviations=ctx.pick(0, 1), fine=1), ctx.pick(4, 6)))
+    alias = [(c, n, "n", mc) for c in ("S1", "S5", "S3", "S4") for n in ("offX2", "stopX")] + \
+        [("S3", "offX2", "r", mc), ("S5", "stopX", "r", mc)]
+    out.append(("aliased-source-addresses", dict(sid=sid, advs=(None, "next"), menu=alias, controls=(), deviations=0, fine=0),
+                ctx.pick(5, 7)))
     # both channels of one source (reboot evidence is per channel)
     two = [("S1", n, e, c) for n in ("offX2", "stopX") for e in ("n", "r") for c in (0, 1)]
     out.append(("two-channels", dict(sid=sid, advs=base, menu=two, controls=("L3",),
